@@ -486,3 +486,17 @@ Proof.
   - cbn. repeat split; try (left; reflexivity); try (intros _ [E|[E|[]]]; discriminate E); try (intros _ [E|[]]; discriminate E); try (intros _ []); try discriminate.
   - eexists. split; [reflexivity|]. split; vm_compute; reflexivity.
 Qed.
+
+(* non-vacuity for the arbitrary-size INTEGER leaves (Integer / Unsigned): -2^71 and 2^64 in a record *)
+Example schema2_example_integers :
+  let s := S2Seq T_SEQUENCE [(false, S2Leaf T_INTEGER LInteger); (true, S2Leaf (128, 0, 0, 0) LUnsigned)] in
+  let v := VSeq [VBytes [128; 0; 0; 0; 0; 0; 0; 0; 0]; VOpt (Some (VBytes [1; 0; 0; 0; 0; 0; 0; 0; 0]))] in
+  ok2 s /\ exists e, enc2 s v = Some e /\
+    enc_write Der e = Ok [48; 22; 2; 9; 128; 0; 0; 0; 0; 0; 0; 0; 0; 128; 9; 1; 0; 0; 0; 0; 0; 0; 0; 0] /\
+  decode_src Der (fun c => mandatory (dec2 (depth2 s) s c))
+    (pure_src [48; 22; 2; 9; 128; 0; 0; 0; 0; 0; 0; 0; 0; 128; 9; 1; 0; 0; 0; 0; 0; 0; 0; 0] None) = (Ok v, pure_src [] None).
+Proof.
+  cbv zeta. split.
+  - cbn. repeat split; try (left; reflexivity); try (intros _ [E|[E|[]]]; discriminate E); try (intros _ [E|[]]; discriminate E); try (intros _ []); try discriminate; try (right; right; left; reflexivity).
+  - eexists. split; [reflexivity|]. split; vm_compute; reflexivity.
+Qed.
